@@ -1,4 +1,183 @@
+(* C15_Properties.v — property theorems of C15 (range split).  Statements only;
+   every proof is `exact <lemma of C15_Proofs / C15_ProofsGeneric>`.
+   Vocabulary (C15_Spec.v): tiles, div_spec, split_hyps, whole_blocks, opt_part,
+   parts_tile_stmt, classification_stmt, enclose_stmt, empty_stmt,
+   fixed_guard, is_pow2_64, kp_ok, vi_guard. *)
 From Coq Require Import ZArith List.
-From PV Require Import Base.U64 C15.C15_Model C15.C15_Proofs.
-Theorem c15_placeholder : True. Proof. exact placeholder. Qed.
-Print Assumptions c15_placeholder.
+From PV Require Import Base.U64 C15.C15_Model C15.C15_Spec C15.C15_ProofsGeneric C15.C15_Proofs.
+Import ListNotations.
+Local Open Scope Z_scope.
+
+(* ------------------------------------------------------------------ generic *)
+(* any splitter whose divide() is correct at `begin` and `end` w.r.t. a block
+   layout B/L (split_hyps) tiles a non-empty range exactly, block by block *)
+Theorem parts_tile_generic : forall B L divide lo hi offset length,
+  split_hyps B L divide lo hi offset length -> 0 < length ->
+  let r := init divide L offset length in
+  exists l, all_parts L r (Z.to_nat (r_aend r - r_abegin r)) = Some l /\ l <> [] /\
+            tiles B L offset (offset + length) (r_abegin r) l.
+Proof. exact C15_ProofsGeneric.parts_tile_generic. Qed.
+Print Assumptions parts_tile_generic.
+
+Theorem parts_tile_generic_anyfuel : forall B L divide lo hi offset length,
+  split_hyps B L divide lo hi offset length -> 0 < length ->
+  parts_tile_stmt B L divide offset length.
+Proof. exact parts_tile_generic_stmt. Qed.
+Print Assumptions parts_tile_generic_anyfuel.
+
+(* consequences of `tiles`: the lengths add up to the range, indices count up *)
+Theorem tiles_total_length : forall B L l start stop i,
+  tiles B L start stop i l -> start + sum_len l = stop.
+Proof. exact tiles_sum. Qed.
+Print Assumptions tiles_total_length.
+
+Theorem tiles_consecutive_indices : forall B L l start stop i,
+  tiles B L start stop i l ->
+  forall k, (k < length l)%nat -> s_i (nth k l sub0) = i + Z.of_nat k.
+Proof. exact tiles_indices. Qed.
+Print Assumptions tiles_consecutive_indices.
+
+Theorem classification_consistent_generic : forall B L divide lo hi offset length,
+  split_hyps B L divide lo hi offset length -> 0 < length ->
+  classification_stmt L divide offset length.
+Proof. exact classification_generic_stmt. Qed.
+Print Assumptions classification_consistent_generic.
+
+Theorem aligned_enclose_generic : forall B L divide lo hi offset length,
+  split_hyps B L divide lo hi offset length ->
+  enclose_stmt B L divide offset length.
+Proof. exact enclose_generic_stmt. Qed.
+Print Assumptions aligned_enclose_generic.
+
+Theorem empty_range_generic : forall B L divide lo hi offset,
+  split_hyps B L divide lo hi offset 0 -> empty_stmt L divide offset.
+Proof. exact empty_generic_stmt. Qed.
+Print Assumptions empty_range_generic.
+
+Example split_hyps_nonvacuous :
+  split_hyps (fun i => i * 4) (getlen_fixed 4) (divide_fixed 4) 0 W64 5 10.
+Proof. exact split_hyps_ex. Qed.
+
+(* -------------------------------------------------------------- range_split *)
+Theorem parts_tile_fixed : forall offset length iv,
+  fixed_guard offset length iv -> 0 < length ->
+  parts_tile_stmt (fun i => i * iv) (getlen_fixed iv) (divide_fixed iv) offset length.
+Proof. exact parts_tile_fixed_l. Qed.
+Print Assumptions parts_tile_fixed.
+
+Theorem classification_consistent_fixed : forall offset length iv,
+  fixed_guard offset length iv -> 0 < length ->
+  classification_stmt (getlen_fixed iv) (divide_fixed iv) offset length.
+Proof. exact classification_fixed_l. Qed.
+Print Assumptions classification_consistent_fixed.
+
+(* stated on multiply() itself, i.e. on aligned_begin_offset()/aligned_end_offset() *)
+Theorem aligned_enclose_fixed : forall offset length iv,
+  fixed_guard offset length iv ->
+  enclose_stmt (mult_fixed iv) (getlen_fixed iv) (divide_fixed iv) offset length.
+Proof. exact enclose_fixed_l. Qed.
+Print Assumptions aligned_enclose_fixed.
+
+Theorem empty_range_fixed : forall offset iv,
+  fixed_guard offset 0 iv -> empty_stmt (getlen_fixed iv) (divide_fixed iv) offset.
+Proof. exact empty_fixed_l. Qed.
+Print Assumptions empty_range_fixed.
+
+Example fixed_guard_nonvacuous :
+  fixed_guard 5 10 4 /\ 0 < 10 /\ fixed_guard (W64 - 4096) 4095 1 /\ fixed_guard 7 0 3.
+Proof. exact fixed_guard_ex. Qed.
+
+Example parts_tile_fixed_instance :
+  all_parts (getlen_fixed 4) (init (divide_fixed 4) (getlen_fixed 4) 5 10) 3
+  = Some [mkSub 1 1 3; mkSub 2 0 4; mkSub 3 0 3].
+Proof. exact parts_tile_ex. Qed.
+
+(* ------------------------------------------------------- range_split_power2 *)
+(* the shift/mask arithmetic is the / and % arithmetic, for every x *)
+Theorem power2_divide_is_fixed : forall k x, 0 <= k < 64 ->
+  divide_p2 (2 ^ k) x = divide_fixed (2 ^ k) x.
+Proof. exact divide_p2_fixed. Qed.
+Print Assumptions power2_divide_is_fixed.
+
+Theorem power2_run_is_fixed : forall fuel offset length iv, is_pow2_64 iv ->
+  run_p2 fuel offset length iv = run_fixed fuel offset length iv.
+Proof. exact run_p2_fixed. Qed.
+Print Assumptions power2_run_is_fixed.
+
+Theorem parts_tile_power2 : forall offset length iv,
+  fixed_guard offset length iv -> is_pow2_64 iv -> 0 < length ->
+  parts_tile_stmt (fun i => i * iv) (getlen_fixed iv) (divide_p2 iv) offset length.
+Proof. exact parts_tile_power2_l. Qed.
+Print Assumptions parts_tile_power2.
+
+Theorem classification_consistent_power2 : forall offset length iv,
+  fixed_guard offset length iv -> is_pow2_64 iv -> 0 < length ->
+  classification_stmt (getlen_fixed iv) (divide_p2 iv) offset length.
+Proof. exact classification_power2_l. Qed.
+Print Assumptions classification_consistent_power2.
+
+Theorem aligned_enclose_power2 : forall offset length iv,
+  fixed_guard offset length iv -> is_pow2_64 iv ->
+  enclose_stmt (mult_p2 iv) (getlen_fixed iv) (divide_p2 iv) offset length.
+Proof. exact enclose_power2_l. Qed.
+Print Assumptions aligned_enclose_power2.
+
+Theorem empty_range_power2 : forall offset iv,
+  fixed_guard offset 0 iv -> is_pow2_64 iv ->
+  empty_stmt (getlen_fixed iv) (divide_p2 iv) offset.
+Proof. exact empty_power2_l. Qed.
+Print Assumptions empty_range_power2.
+
+Example power2_guard_nonvacuous :
+  fixed_guard 5 10 4 /\ is_pow2_64 4 /\ is_pow2_64 1 /\ is_pow2_64 9223372036854775808.
+Proof. exact pow2_guard_ex. Qed.
+
+(* ----------------------------------------------------------- range_split_vi *)
+Theorem parts_tile_vi : forall kp, kp_ok kp -> forall offset length,
+  vi_guard offset length -> 0 < length ->
+  parts_tile_stmt (kp_nth kp) (getlen_vi kp) (divide_vi kp) offset length.
+Proof. exact parts_tile_vi_s. Qed.
+Print Assumptions parts_tile_vi.
+
+Theorem classification_consistent_vi : forall kp, kp_ok kp -> forall offset length,
+  vi_guard offset length -> 0 < length ->
+  classification_stmt (getlen_vi kp) (divide_vi kp) offset length.
+Proof. exact classification_vi_s. Qed.
+Print Assumptions classification_consistent_vi.
+
+Theorem aligned_enclose_vi : forall kp, kp_ok kp -> forall offset length,
+  vi_guard offset length ->
+  enclose_stmt (mult_vi kp) (getlen_vi kp) (divide_vi kp) offset length.
+Proof. exact enclose_vi_s. Qed.
+Print Assumptions aligned_enclose_vi.
+
+Theorem empty_range_vi : forall kp, kp_ok kp -> forall offset,
+  vi_guard offset 0 -> empty_stmt (getlen_vi kp) (divide_vi kp) offset.
+Proof. exact empty_vi_s. Qed.
+Print Assumptions empty_range_vi.
+
+Example vi_guard_nonvacuous :
+  kp_ok [0; 3; 7; 8; 20; MAX64] /\ vi_guard 2 9 /\ 0 < 9 /\ vi_guard 5 0.
+Proof. exact vi_guard_ex. Qed.
+
+(* -------------------------------------------------------------- refutations *)
+(* known finding F15: beyond fixed_guard the parts do not tile the range *)
+Theorem f15_refuted :
+  let offset := W64 - 100 in let length := 50 in let iv := 4096 in
+  let r := init (divide_fixed iv) (getlen_fixed iv) offset length in
+  in_u64 offset /\ in_u64 (offset + length) /\ 0 < length /\ ~ fixed_guard offset length iv /\
+  r_abegin r = 2 ^ 52 - 1 /\ r_aend r = 0 /\
+  (forall fuel, Z.of_nat fuel < 2 ^ 63 -> all_parts (getlen_fixed iv) r fuel = None) /\
+  ~ parts_tile_stmt (fun i => i * iv) (getlen_fixed iv) (divide_fixed iv) offset length.
+Proof. exact f15_refuted_l. Qed.
+Print Assumptions f15_refuted.
+
+(* F19 (repaired by commit 744eaa1): empty_range_fixed was false for the
+   pre-fix aligned_parts_t::end() *)
+Theorem empty_range_prefix_refuted :
+  let r := init (divide_fixed 2) (getlen_fixed 2) 1 0 in
+  fixed_guard 1 0 2 /\
+  (forall fuel, Z.of_nat fuel < W64 - 1 -> aligned_parts_prefix (getlen_fixed 2) r fuel = None) /\
+  (forall fuel, aligned_parts (getlen_fixed 2) r fuel = Some []).
+Proof. exact empty_range_prefix_refuted_l. Qed.
+Print Assumptions empty_range_prefix_refuted.
